@@ -381,6 +381,11 @@ def run(ctx):
             ctx.violation("step correspondence between LV.Model.RcuGp and cds/urcu/details/{gp,gpi,base}.h no longer holds",
                           {"correspondence": "Model/RcuGp.v vs cds::urcu::gc<general_instant<spin_lock,backoff::empty>>", "case": c, "first_divergence": d,
                            "searched_cases_without_monitor_violation": len(more)}, no_input=True)
+    if ctx.thorough() and res.ok and not ctx.replay:
+        rcq, outq = vcheck.coqchk("LV.Properties.Properties_C04")
+        ctx.coverage["coqchk"] = "ok" if rcq == 0 else outq[-400:]
+        if rcq != 0:
+            ctx.violation("coqchk rejects LV.Properties.Properties_C04", {"coqchk": outq[-1500:]}, no_input=True)
     if not res.ok:
         ctx.violation("Coq obligations of C04 do not check: %s" % (res.failed[:2],), {"theorem": [f[2] for f in res.failed], "errors": res.failed[:3]}, no_input=True)
     ctx.coverage.update({
